@@ -62,6 +62,11 @@ public:
 	static int64_t end_call_budget();   // returns steps used
 	static const VClock &clock_of_current();
 	static void misuse(const std::string &what); // pthread API misuse by the SUT
+	// canonical section: while active every choice is "newest enabled fiber first" (deterministic, draws no
+	// random numbers, delivers no spurious wake-ups) and is not recorded in the explicit trace; used to
+	// execute the same code once under a fixed reference schedule
+	static void begin_canonical();
+	static void end_canonical();
 	// called on a fiber: give up the whole run now (all fibers are abandoned); does not return
 	static void abandon(const std::string &why);
 };
